@@ -466,7 +466,10 @@ func mapKeyValue(mt reflect.Type, index interface{}) (reflect.Value, error) {
 
 func (c *compiler) evalHashLiteral(node *ast.HashLiteral) (interface{}, error) {
 	m := map[string]interface{}{}
-	for ke, ve := range node.Pairs {
+	// in source order: values may have side effects, and of two entries with
+	// the same key the later one wins
+	for _, ke := range node.Order {
+		ve := node.Pairs[ke]
 		v, err := c.evalExpression(ve)
 		if err != nil {
 			return nil, err
